@@ -1,0 +1,19 @@
+//go:build verif
+
+package group
+
+// Exports for the `joinrace` driver (property C14): the semaphore that
+// limits concurrent password hashing.  Add-only; nothing here is compiled
+// into the server.  A driver that takes every slot makes every check of a
+// hashed (pbkdf2, bcrypt) password wait until it gives one back, which is
+// what a burst of logins does to the server: the credential check inside
+// group.AddClient then lasts as long as the driver wants.
+
+// VerifHashSlots returns the capacity of the hashing semaphore.
+func VerifHashSlots() int { return cap(hashSemaphore) }
+
+// VerifHashAcquire takes one slot, waiting for it if necessary.
+func VerifHashAcquire() { hashSemaphore <- struct{}{} }
+
+// VerifHashRelease gives one slot back.
+func VerifHashRelease() { <-hashSemaphore }
